@@ -22,3 +22,20 @@ package cas
 //@ func (*suspendingDirectoryFetcher).GetTreeChildDirectory
 //@   props C11
 //@   ensures balanced: suspended(df.suspendable) == 0
+
+// ---------------------------------------------------------------------------
+// The directory cache never answers for one digest with the directory of
+// another (C17): a fetched directory is stored under exactly the key it was
+// fetched for, and making room only removes entries, it never rebinds one.
+//@ func (*cachingDirectoryFetcher).insert
+//@   props C17
+//@   loop 0 invariant df == old(df) && df.objects == old(df.objects) && !(old(key) in df.objects) &&
+//@             (forall k CachingDirectoryFetcherKey :: k in df.objects ==> old(k in df.objects) && df.objects[k].directory == old(df.objects[k].directory))
+//@   ensures cached-under-the-key-it-was-fetched-for: old(!(key in df.objects)) ==> key in df.objects && df.objects[key].directory == directory
+//@   ensures cached-directories-are-never-rebound:
+//@             forall k CachingDirectoryFetcherKey :: k != key && k in df.objects ==> old(k in df.objects) && df.objects[k].directory == old(df.objects[k].directory)
+//@   ensures an-already-cached-key-keeps-its-directory: old(key in df.objects) ==> df.objects[key].directory == old(df.objects[key].directory)
+//@ func (*cachingDirectoryFetcher).lookup
+//@   props C17
+//@   ensures answers-with-what-is-cached-under-that-key: r1 ==> old(key in df.objects) && r0 == old(df.objects[key].directory)
+//@   ensures misses-only-when-not-cached: !r1 ==> !old(key in df.objects)
